@@ -203,7 +203,8 @@ def check(case, ctx):
             break
     for r in region_ids:
         if r not in refs_region:
-            fails.append({'what': 'region defined but never referenced', 'region': r, 'refs': sorted(set(refs_region))})
+            fails.append({'what': 'region defined but never referenced', 'region': r, 'refs': sorted(set(refs_region)),
+                          'no_p_written': not any(d['ps'] for d in doc['divs'])})
     # how many distinct layouts could have produced regions that are not referenced (force / fallbacks)
     if case['force'] and len(langs) > 1:
         ctx.count('unused_regions_possible')
@@ -219,6 +220,9 @@ def classify(case, failure):
         if all(i == 'bottom' or re.fullmatch(r'r\d+', i) for i in failure['ids']):
             if all(i in failure['style_ids'] and i in failure['region_ids'] for i in failure['ids']):
                 return 'dfxp-style-id-collides-with-region-id'
+    if failure.get('what') == 'region defined but never referenced' and failure.get('writer') == 'LegacyDFXPWriter' \
+            and failure.get('region') == 'bottom' and failure.get('refs') == [] and failure.get('no_p_written'):
+        return 'legacy-dfxp-no-caption-written-leaves-default-region-unreferenced'
     if failure.get('what') in ('region= reference does not resolve to exactly one definition',
                                'style= reference does not resolve to exactly one definition'):
         # the same collision seen from the reference side is NOT excused: style_ids/region_ids are
